@@ -1,0 +1,21 @@
+//go:build verif
+
+package cosmos
+
+// Contracts for the deductive checker in /verif (comment-only; compiled only with -tags verif).
+
+/*@
+// C07: a Cosmos transaction only reaches `next` in a block (simulate == false) when its fee in the EVM
+// denomination is at least gasLimit x MinGasPrice (or MinGasPrice is zero).
+func (MinGasPriceDecorator).AnteHandle
+    let mgp = fmk_params(mpd.feesKeeper, ctx).MinGasPrice
+    let evmDenom0 = evmk_params(mpd.evmKeeper, ctx).EvmDenom
+    requires nonnil: mpd.feesKeeper != nil && mpd.evmKeeper != nil
+    modifies bank_bal   // `next` is unknown code
+    call next requires floor: simulate || mgp == 0
+             || dec_of(feetx_fee(tx)[evmDenom0]) >= mgp * feetx_gas(tx)
+    let F = dec_round(dec_ceil(dec_mul(minGasPrice, gasLimit)))
+    loop 1 invariant idx: 0 <= #i && #i <= 1
+    loop 1 invariant req: requiredFees == ite(#i == 0 || F <= 0, coins_zero(), cone(evmDenom, F))
+    loop 1 exit use DecMulInt(minGasPrice, gas)
+@*/
